@@ -567,13 +567,13 @@ impl World for C18 {
                     },
                     panic_at: if unwind_ok && rng.chance(1, 3) { Some(rng.below(9) as u8) } else { None },
                     hint: gen_hint(rng),
-                    gap: if rng.chance(1, 6) { Some(rng.below(12) as u8) } else { None },
+                    gap: if rng.chance(1, 6) { Some(rng.below(256) as u8) } else { None },
                 },
                 4 => Op::Collect {
                     n: rng.below(25) as u8,
                     panic_at: if unwind_ok && rng.chance(1, 4) { Some(rng.below(25) as u8) } else { None },
                     hint: gen_hint(rng),
-                    gap: if rng.chance(1, 6) { Some(rng.below(12) as u8) } else { None },
+                    gap: if rng.chance(1, 6) { Some(rng.below(256) as u8) } else { None },
                 },
                 5 => Op::Clear,
                 6 => Op::Len,
@@ -810,6 +810,7 @@ impl World for C18 {
             stub: vec!["panicking source iterator (caller code)", "panicking loop body (caller code)"],
             expected_probes: vec![
                 "drain-partial-then-push",
+                "source-that-is-not-fused",
                 "drain-forgotten",
                 "get-out-of-range-none",
                 "range-inverted",
